@@ -239,6 +239,7 @@ type runner struct {
 	left    int               // client requests still to send
 	inflight map[string]bool  // request ids not yet answered
 	reg     *prometheus.Registry
+	afterCrash bool
 }
 
 func (rn *runner) noteCron(cron string, t int64) {
@@ -339,7 +340,13 @@ func runTrace(f *family, seed uint64, dir string) (tr *trace) {
 
 func (rn *runner) tick() {
 	w, r, k := rn.w, rn.w.r, rn.k
-	w.now += rn.f.timeStep(w)
+	step := rn.f.timeStep(w)
+	if rn.afterCrash && step < 1 {
+		// a restarted kernel names its background coroutines <name>:<t>; keep those ids fresh
+		step = 1
+	}
+	rn.afterCrash = false
+	w.now += step
 	t := w.now
 
 	// deliveries: a subset of the ready completions
@@ -613,5 +620,6 @@ func (rn *runner) crash() {
 	rn.k = k
 	rn.inflight = map[string]bool{}
 	rn.tr.Events = append(rn.tr.Events, event{D: C("DCrash"), O: []term{}})
+	rn.afterCrash = true
 	rn.stat("crash")
 }
